@@ -241,12 +241,12 @@ Proof. reflexivity. Qed.
 (* ------------------------------------------------------------------ *)
 
 Lemma float_step_unfold : forall omin omax s str v, dcoef s <> 0%N ->
-  check_convert FFloat omin omax (Some s) str (RFin v) =
+  ideal_convert FFloat omin omax (Some s) str (RFin v) =
   rbind (snap_dec (clamp omin omax v) (match omin with Some m => m | None => dzero end) s)
         (fun v3 => Ok (VDec v3)).
 Proof.
-  intros omin omax s str v Hs. simpl. unfold convert_number.
-  destruct (dcoef s =? 0)%N eqn:E; [lia|]. unfold snap. simpl. reflexivity.
+  intros omin omax s str v Hs. simpl. unfold ideal_number.
+  destruct (dcoef s =? 0)%N eqn:E; [lia|]. unfold ideal_snap. simpl. reflexivity.
 Qed.
 
 Lemma off_val : forall omin, dval (match omin with Some m => m | None => dzero end) == offQ omin.
@@ -256,7 +256,7 @@ Lemma float_six_digits_lemma : forall omin omax s str v, dcoef s <> 0%N ->
   let C := clampQ (option_map dval omin) (option_map dval omax) (dval v) in
   let O := offQ omin in
   exists res d q m,
-    check_convert FFloat omin omax (Some s) str (RFin v) = Ok (VDec res) /\
+    ideal_convert FFloat omin omax (Some s) str (RFin v) = Ok (VDec res) /\
     rnd6 (C - O) d /\ rnd6 (d / dval s) q /\ rnd6 (inject_Z (rhaQ q) * dval s) m /\ rnd6 (O + m) (dval res).
 Proof.
   intros omin omax s str v Hs C O. rewrite float_step_unfold by assumption.
@@ -275,7 +275,7 @@ Lemma float_exact_small_lemma : forall omin omax s str v, dcoef s <> 0%N ->
   let O := offQ omin in
   let r := rhaQ ((C - O) / dval s) in
   rep6 (C - O) -> rep6 ((C - O) / dval s) -> rep6 (inject_Z r * dval s) -> rep6 (O + inject_Z r * dval s) ->
-  exists res, check_convert FFloat omin omax (Some s) str (RFin v) = Ok (VDec res) /\
+  exists res, ideal_convert FFloat omin omax (Some s) str (RFin v) = Ok (VDec res) /\
               dval res == O + inject_Z r * dval s.
 Proof.
   intros omin omax s str v Hs C O r R1 R2 R3 R4. rewrite float_step_unfold by assumption.
@@ -294,7 +294,7 @@ Qed.
 
 (* no step: the clamped value itself is handed to float() *)
 Lemma float_nostep_lemma : forall omin omax str v,
-  exists res, check_convert FFloat omin omax None str (RFin v) = Ok (VDec res) /\
+  exists res, ideal_convert FFloat omin omax None str (RFin v) = Ok (VDec res) /\
               dval res == clampQ (option_map dval omin) (option_map dval omax) (dval v).
 Proof. intros. eexists. split; [reflexivity|]. apply clamp_Q. Qed.
 
@@ -374,15 +374,15 @@ Lemma int_dec_path_lemma : forall f omin omax s str v,
   let C := clampQ (option_map dval omin) (option_map dval omax) (dval v) in
   let O := offQ omin in
   exists z res d q m,
-    check_convert f omin omax (Some s) str (RFin v) = Ok (VInt z) /\
+    ideal_convert f omin omax (Some s) str (RFin v) = Ok (VInt z) /\
     Qabs (inject_Z z - dval res) <= 1 # 2 /\
     rnd6 (C - O) d /\ rnd6 (d / dval s) q /\ rnd6 (inject_Z (rhaQ q) * dval s) m /\ rnd6 (O + m) (dval res).
 Proof.
   intros f omin omax s str v Hf Hs c off Hni C O.
-  assert (Hcc : check_convert f omin omax (Some s) str (RFin v) = convert_number f omin omax (Some s) (RFin v))
+  assert (Hcc : ideal_convert f omin omax (Some s) str (RFin v) = ideal_number f omin omax (Some s) (RFin v))
     by (destruct f; try discriminate; reflexivity).
-  rewrite Hcc. unfold convert_number. destruct (dcoef s =? 0)%N eqn:E; [lia|].
-  unfold snap. fold c off. rewrite Hf.
+  rewrite Hcc. unfold ideal_number. destruct (dcoef s =? 0)%N eqn:E; [lia|].
+  unfold ideal_snap. fold c off. rewrite Hf.
   replace (true && is_integral HalfUp c && is_integral HalfUp off && is_integral HalfUp s) with false
     by (simpl; symmetry; exact Hni).
   destruct (snap_dec_rnd c off s Hs) as [res [d [q [m [H0 [H1 [H2 [H3 H4]]]]]]]].
